@@ -53,6 +53,45 @@ var c07Templates = []struct {
 	{"[]BadNested", func() interface{} { return []gen.BadNested{} }},
 }
 
+// templates for struct-shaped documents (keys k1, k2, ...)
+var c07StructTemplates = []struct {
+	name string
+	mk   func() interface{}
+}{
+	{"struct{K1 interface{};K2 int;K3 []string}", func() interface{} {
+		return struct {
+			K1 interface{}
+			K2 int
+			K3 []string
+		}{}
+	}},
+	{"struct{K1 int;K2 []interface{};K3 float64;K4 string}", func() interface{} {
+		return struct {
+			K1 int
+			K2 []interface{}
+			K3 float64
+			K4 string
+		}{}
+	}},
+	{"struct{K1 []interface{};K2 int;K3 map[interface{}]interface{}}", func() interface{} {
+		return struct {
+			K1 []interface{}
+			K2 int
+			K3 map[interface{}]interface{}
+		}{}
+	}},
+	{"*struct{K1 *int;K2 uint8;K3 [2]interface{};K4 *gen.Rec1}", func() interface{} {
+		return &struct {
+			K1 *int
+			K2 uint8
+			K3 [2]interface{}
+			K4 *gen.Rec1
+		}{}
+	}},
+	{"map[string]int", func() interface{} { return map[string]int{} }},
+	{"map[string][]interface{}", func() interface{} { return map[string][]interface{}{} }},
+}
+
 type c07Scenario struct {
 	Format   string               `json:"format"`
 	Cfg      CfgDesc              `json:"config"`
@@ -108,6 +147,7 @@ func runC07(e *Env) Outcome {
 	cfg := cfgd.Build()
 	sc := &c07Scenario{Format: f.String(), Cfg: cfgd}
 	var bytes []byte
+	structShaped := false
 	mode := t.Intn("doc-mode", 8)
 	switch {
 	case mode == 7:
@@ -119,10 +159,27 @@ func runC07(e *Env) Outcome {
 		e.Count("docs_deep_nesting", 1)
 	default:
 		o := gen.DrawOpts(t)
+		if mode == 6 {
+			// struct-shaped document: a top-level map with keys k1, k2, ... whose
+			// values are anything (markers, references - also into the container
+			// being marked - nested containers, arrays), read into struct templates
+			// with fields K1, K2, ... of assorted types: every conversion and
+			// error-reporting path of the typed builders
+			structShaped = true
+			o.TopContainer, o.TopMap, o.StringKeysOnly = true, true, true
+			o.Markers, o.MarkerBias, o.RecursiveRefs = true, true, true
+			if o.MaxItems < 3 {
+				o.MaxItems = 3
+			}
+			e.Count("docs_struct_shaped", 1)
+		}
 		doc, rej := gen.DrawDoc(t, f, o, configurationDefault)
 		e.Count("generator_rejects", rej)
 		bytes = doc.Bytes
 		nf := t.Intn("n-sf", 5)
+		if structShaped && t.Bool("struct-unfaulted") {
+			nf = 0 // the valid document itself is the stress: values that do not fit their fields
+		}
 		if nf > 0 {
 			lens := lengthOffsets(doc)
 			sc.Faults = simio.DrawStorageFaults(t, nf, len(bytes), lens)
@@ -139,6 +196,9 @@ func runC07(e *Env) Outcome {
 	tmpl := c07Templates[0]
 	if t.Chance("typed-template", 1, 2) {
 		tmpl = c07Templates[t.Intn("template", len(c07Templates))]
+	}
+	if structShaped {
+		tmpl = c07StructTemplates[t.Intn("struct-template", len(c07StructTemplates))]
 	}
 	sc.Template = tmpl.name
 	withRules := t.Bool("decoder-rules")
@@ -207,6 +267,26 @@ func runC07(e *Env) Outcome {
 		e.Seen(true, "marshal", val.Desc, mi, fmt.Sprintf("%v", cfgd))
 		if bad(name, p) {
 			return e.Finish(sig, nil, sc)
+		}
+	}
+	// the same values through ONE marshaler of each format: the value, a pointer
+	// to it (a new top-level type whose element type was met a moment ago,
+	// possibly unsuccessfully), and the value again
+	for mi := 0; mi < 2; mi++ {
+		name := [...]string{"CBEMarshaler.Marshal(reused)", "CTEMarshaler.Marshal(reused)"}[mi]
+		var m ce.Marshaler
+		if mi == 0 {
+			m = ce.NewCBEMarshaler(cfg)
+		} else {
+			m = ce.NewCTEMarshaler(cfg)
+		}
+		for step, vv := range []interface{}{v, gen.PointerTo(v), v} {
+			w := simio.NewWriter(simio.WriterPlan{})
+			p := e.Op(name, func() { m.Marshal(vv, w) })
+			e.Seen(true, "marshal-reused", val.Desc, mi, step, fmt.Sprintf("%v", cfgd))
+			if bad(name, p) {
+				return e.Finish(sig, nil, sc)
+			}
 		}
 	}
 	return e.Finish(sig, sc, sc)
